@@ -638,7 +638,19 @@ func c01BlockTimesDecodedUnsigned(r *core.Report) {
 	}
 	info := dec.Pkg.TypesInfo
 	n := 0
-	ast.Inspect(dec.Body, func(m ast.Node) bool {
+	// the decoder and the methods of the package it delegates to (the loop over the values may live in a helper)
+	var bodies []ast.Node
+	for _, fn := range pkgScope(r.Prog, dec, 2) {
+		if fn.Body != nil && fn.Lit == nil {
+			bodies = append(bodies, fn.Body)
+		}
+	}
+	scan := func(visit func(m ast.Node) bool) {
+		for _, b := range bodies {
+			ast.Inspect(b, visit)
+		}
+	}
+	scan(func(m ast.Node) bool {
 		as, ok := m.(*ast.AssignStmt)
 		if !ok || len(as.Lhs) != 1 || len(as.Rhs) != 1 {
 			return true
